@@ -66,6 +66,7 @@ func TestC08Huge(t *testing.T) {
 		}
 	})
 }
+
 // TestC07Huge: an all-targets subscriber denied a target of 10000-70000 leaves (part "huge"; each case costs seconds).
 func TestC07Huge(t *testing.T) {
 	if !vstat.Enabled("C07") {
